@@ -19,7 +19,46 @@ TRUSTED = ["Spec/Stmt.lean: our reading of C99 6.8 and of the documented AST; th
 ASSUMPTIONS = []
 
 
+# pycparser's documented extension: _Static_assert where a statement is expected. The property's
+# nesting rules apply to it as to any statement (the label / case / loop owns the assertion that
+# follows it); the `;` that closes it is an EmptyStatement of the enclosing block (pinned by the
+# repository's own test for block-level assertions).
+SA = '_Static_assert(1, "m");'
+EXT_CASES = [
+    ("L: " + SA + " x;", "Compound(Label(StaticAssert(Constant,Constant)),EmptyStatement,ID)"),
+    ("L: M: " + SA, "Compound(Label(Label(StaticAssert(Constant,Constant))),EmptyStatement)"),
+    ("switch (a) { case 1: " + SA + " x; default: " + SA + " }",
+     "Compound(Switch(ID,Compound(Case(Constant,StaticAssert(Constant,Constant),EmptyStatement,ID),Default(StaticAssert(Constant,Constant),EmptyStatement))))"),
+    ("switch (a) { case 1: case 2: " + SA + " }",
+     "Compound(Switch(ID,Compound(Case(Constant),Case(Constant,StaticAssert(Constant,Constant),EmptyStatement))))"),
+    ("while (a) " + SA + " x;", "Compound(While(ID,StaticAssert(Constant,Constant)),EmptyStatement,ID)"),
+    ("if (a) " + SA + " x;", "Compound(If(ID,StaticAssert(Constant,Constant)),EmptyStatement,ID)"),
+    ("for (;;) L: " + SA, "Compound(For(Label(StaticAssert(Constant,Constant))),EmptyStatement)"),
+    (SA + " L: x;", "Compound(StaticAssert(Constant,Constant),EmptyStatement,Label(ID))"),
+    ("{ " + SA + " } x;", "Compound(Compound(StaticAssert(Constant,Constant),EmptyStatement),ID)"),
+]
+
+
+def shape_of_body(body):
+    from ..pyparse import py_parse_obj
+    r = py_parse_obj("void f(void) { %s }" % body, "f.c")
+    if r[0] != "OK":
+        return r[0] + ":" + str(r[1])[:80]
+
+    def sh(n):
+        c = [sh(x) for _, x in n.children()]
+        return type(n).__name__ + ("(" + ",".join(c) + ")" if c else "")
+
+    return sh(r[1].ext[0].body)
+
+
 def run(ctx):
+    ctx.rule("%d hand-written bodies using the _Static_assert-as-statement extension under labels, case/default chains, loops and blocks: nesting must be that of the statement grammar" % len(EXT_CASES))
+    for body, want in EXT_CASES:
+        got = shape_of_body(body)
+        if got != want:
+            ctx.violation("statement nesting of %r is %s, expected %s" % (body, got, want), {"kind": "extbody", "body": body, "want": want})
+    ctx.count(len(EXT_CASES), nontrivial_n=len(EXT_CASES))
     reqs = [("c05", "enum", "8", "25", "1", "0", "100000"), ("c05", "enum", "3", "25", "2", "0", "100000")]
     if not ctx.quick():
         reqs += [("c05", "enum", "2", "12", "3", str(lo), str(lo + 20000)) for lo in range(0, 900000, 20000)]
@@ -31,6 +70,11 @@ def run(ctx):
 
 
 def replay(ctx, payload):
+    i = payload["input"]
+    if i.get("kind") == "extbody":
+        got = shape_of_body(i["body"])
+        print(got)
+        return got == i["want"]
     return S.replay_spec(ctx, payload)
 
 
